@@ -112,3 +112,57 @@ Proof.
   - rewrite IH12 by assumption. apply IH23.
     unfold keys in *. eapply Permutation_NoDup; [apply Permutation_map; exact H12|assumption].
 Qed.
+
+(* ---------- sorting records by a unique key ---------- *)
+Section SortByKey.
+  Context {A : Type}.
+  Definition key_leb (a b : string * A) : bool := str_leb (fst a) (fst b).
+
+  Lemma sorted_unique_in (leb : (string * A) -> (string * A) -> bool) l l' :
+    (forall a b, In a l -> In b l -> leb a b = true -> leb b a = true -> a = b) ->
+    StronglySorted (fun a b => leb a b = true) l -> StronglySorted (fun a b => leb a b = true) l' ->
+    Permutation l l' -> l = l'.
+  Proof.
+    intros Hanti Hl. revert l' Hanti. induction Hl as [|x l Hs IH Hall]; intros l' Hanti Hl' Hp.
+    - apply Permutation_nil in Hp. congruence.
+    - destruct Hl' as [|y l' Hs' Hall'].
+      + apply Permutation_sym, Permutation_nil in Hp. discriminate.
+      + rewrite Forall_forall in Hall, Hall'.
+        assert (x = y).
+        { assert (Hy : In y (x :: l)) by (apply (Permutation_in y (Permutation_sym Hp)); left; reflexivity).
+          assert (Hx : In x (y :: l')) by (apply (Permutation_in x Hp); left; reflexivity).
+          destruct Hy as [->|Hy]; [reflexivity|].
+          destruct Hx as [->|Hx]; [reflexivity|].
+          apply Hanti; [left; reflexivity|right; exact Hy|apply Hall; assumption|apply Hall'; assumption]. }
+        subst y. f_equal. apply IH; [|assumption|eapply Permutation_cons_inv; eauto].
+        intros a b Ha Hb. apply Hanti; right; assumption.
+  Qed.
+
+  Lemma NoDup_keys_eq (l : list (string * A)) a b :
+    NoDup (keys l) -> In a l -> In b l -> fst a = fst b -> a = b.
+  Proof.
+    induction l as [|[k v] l IH]; cbn; intros Hnd Ha Hb Hk; [contradiction|].
+    inversion Hnd as [|? ? Hnotin Hnd']; subst.
+    destruct Ha as [<-|Ha], Hb as [<-|Hb]; auto.
+    - exfalso. apply Hnotin. cbn in Hk. rewrite Hk. apply in_map. exact Hb.
+    - exfalso. apply Hnotin. cbn in Hk. rewrite <- Hk. apply in_map. exact Ha.
+  Qed.
+
+  Theorem sort_by_key_perm (l l' : list (string * A)) :
+    Permutation l l' -> NoDup (keys l) -> sort_by key_leb l = sort_by key_leb l'.
+  Proof.
+    intros Hp Hnd.
+    assert (Tot : forall a b : string * A, key_leb a b = false -> key_leb b a = true)
+      by (intros a b; apply str_leb_total).
+    assert (Tr : forall a b c : string * A, key_leb a b = true -> key_leb b c = true -> key_leb a c = true)
+      by (intros a b c; apply str_leb_trans).
+    apply (sorted_unique_in key_leb).
+    - intros a b Ha Hb H1 H2.
+      apply (Permutation_in a (Permutation_sym (sort_perm key_leb l))) in Ha.
+      apply (Permutation_in b (Permutation_sym (sort_perm key_leb l))) in Hb.
+      apply (NoDup_keys_eq l); auto. apply str_leb_antisym; assumption.
+    - apply (sort_sorted key_leb Tot Tr).
+    - apply (sort_sorted key_leb Tot Tr).
+    - rewrite <- (sort_perm key_leb l), <- (sort_perm key_leb l'). exact Hp.
+  Qed.
+End SortByKey.
